@@ -58,7 +58,18 @@ def op_function(c):
                         override=bool(ov), initialization=ini, contents=build(cont), scope=scope)
     except Exception as e:  # noqa
         return [type(e).__name__]
-    return [0] + twice(lambda: [fn.as_decl, fn.as_def])
+    res = [0] + twice(lambda: [fn.as_decl, fn.as_def])
+    # the library itself completes Function objects after creating (and possibly rendering) them: an object whose fields are
+    # assigned after a first rendering renders like one constructed complete
+    staged = G.Function(return_type=mk_type(r), name=n, scope=scope)
+    try:
+        staged.as_decl, staged.as_def      # noqa: B018  (first rendering, of the incomplete object)
+    except Exception:  # noqa
+        pass
+    staged.params, staged.prefix, staged.cav, staged.override = [mk_param(p) for p in ps], PREF[pf], cav, bool(ov)
+    staged.initialization, staged.contents = ini, build(cont)
+    assert [staged.as_decl, staged.as_def] == res[1], 'a Function completed after its first rendering renders differently from one constructed complete'
+    return res
 
 
 def op_constructor(c):
@@ -68,13 +79,30 @@ def op_constructor(c):
                            initialization=ini, member_initlist=list(mil), contents=build(cont))
     except Exception as e:  # noqa
         return [type(e).__name__]
-    return [0] + twice(lambda: [ct.as_decl, ct.as_def])
+    res = [0] + twice(lambda: [ct.as_decl, ct.as_def])
+    staged = G.Constructor(scope=G.Struct(name=sc))
+    try:
+        staged.as_decl, staged.as_def      # noqa: B018
+    except Exception:  # noqa
+        pass
+    staged.explicit, staged.params = bool(ex), [None if p is None else mk_param(p) for p in ps]
+    staged.initialization, staged.member_initlist, staged.contents = ini, list(mil), build(cont)
+    assert [staged.as_decl, staged.as_def] == res[1], 'a Constructor completed after its first rendering renders differently from one constructed complete'
+    return res
 
 
 def op_destructor(c):
     sc, ov, ini, cont = c['d']
     dt = G.Destructor(scope=G.Class(name=sc), override=bool(ov), initialization=ini, contents=build(cont))
-    return twice(lambda: [dt.as_decl, dt.as_def])
+    res = twice(lambda: [dt.as_decl, dt.as_def])
+    staged = G.Destructor(scope=G.Class(name=sc))
+    try:
+        staged.as_decl, staged.as_def      # noqa: B018
+    except Exception:  # noqa
+        pass
+    staged.override, staged.initialization, staged.contents = bool(ov), ini, build(cont)
+    assert [staged.as_decl, staged.as_def] == res[0], 'a Destructor completed after its first rendering renders differently from one constructed complete'
+    return res
 
 
 def op_member_var(c):
